@@ -335,6 +335,32 @@ bool GOMP_single_start(void) { sim::World* w = W(); return !w || w->omp_nthr <= 
 void GOMP_ordered_start(void) {}
 void GOMP_ordered_end(void) {}
 
+// sections: handed out one by one like chunks of a dynamic loop of length 'count' (1-based section numbers, 0 = none left)
+static unsigned sections_next_locked() {
+    long s, e;
+    if (!loop_next(&s, &e)) return 0;
+    return (unsigned)s;
+}
+unsigned GOMP_sections_start(unsigned count) {
+    long s, e;
+    return loop_start(1, (long)count + 1, 1, 1, &s, &e) ? (unsigned)s : 0;
+}
+unsigned GOMP_sections_next(void) { return sections_next_locked(); }
+void GOMP_sections_end(void) { team_barrier(); }
+void GOMP_sections_end_nowait(void) {}
+void GOMP_parallel_sections(void (*fn)(void*), void* data, unsigned num_threads, unsigned count, unsigned /*flags*/) {
+    parallel_loop(fn, data, num_threads, 1, (long)count + 1, 1, 1);
+}
+// tasks are executed immediately by the encountering thread (a legal schedule: undeferred execution)
+void GOMP_task(void (*fn)(void*), void* data, void (*cpyfn)(void*, void*), long arg_size, long arg_align, bool, unsigned, void**, int, void*) {
+    if (cpyfn) { std::vector<char> buf((size_t)arg_size + (size_t)arg_align); char* p = buf.data(); p += (arg_align - ((uintptr_t)p % (arg_align ? arg_align : 1))) % (arg_align ? arg_align : 1); cpyfn(p, data); fn(p); }
+    else fn(data);
+}
+void GOMP_taskwait(void) {}
+void GOMP_taskyield(void) {}
+void GOMP_taskgroup_start(void) {}
+void GOMP_taskgroup_end(void) {}
+
 // dynamically / guided / runtime scheduled loops (schedule(dynamic), schedule(guided), schedule(runtime), schedule(auto))
 #define SIM_PARALLEL_LOOP(name) \
     void name(void (*fn)(void*), void* data, unsigned num_threads, long start, long end, long incr, long chunk, unsigned /*flags*/) { parallel_loop(fn, data, num_threads, start, end, incr, chunk); }
